@@ -111,11 +111,13 @@ type c02Pre struct {
 	reported      map[string]map[string]bool
 	deliveredUpTo map[string]map[int][]string // msg -> attempt -> rcpts delivered in that attempt
 	startedMax    map[string]int              // msg -> highest attempt number started
+	started       map[string]map[int]bool     // msg -> attempts started before the crash
+	offered       map[string]map[int]map[string]bool // msg -> attempt -> recipients offered in it
 }
 
 func newC02Pre() *c02Pre {
 	return &c02Pre{accepted: map[string]bool{}, aborted: map[string]bool{}, delivered: map[string]map[string]bool{}, reported: map[string]map[string]bool{},
-		deliveredUpTo: map[string]map[int][]string{}, startedMax: map[string]int{}}
+		deliveredUpTo: map[string]map[int][]string{}, startedMax: map[string]int{}, started: map[string]map[int]bool{}, offered: map[string]map[int]map[string]bool{}}
 }
 
 // absorb adds the facts of history h that happened before crash point k
@@ -139,6 +141,19 @@ func (p *c02Pre) absorb(sc qScenario, h *qHistory, k int64, attemptBase map[stri
 		n := a.N + attemptBase[a.Msg]
 		if n > p.startedMax[a.Msg] {
 			p.startedMax[a.Msg] = n
+		}
+		if p.started[a.Msg] == nil {
+			p.started[a.Msg] = map[int]bool{}
+			p.offered[a.Msg] = map[int]map[string]bool{}
+		}
+		p.started[a.Msg][n] = true
+		if p.offered[a.Msg][n] == nil {
+			p.offered[a.Msg][n] = map[string]bool{}
+		}
+		for _, e := range h.Events {
+			if e.Msg == a.Msg && e.Attempt == a.N && e.Op == "rcpt" && e.Seq <= k {
+				p.offered[a.Msg][n][e.Rcpt] = true
+			}
 		}
 		if !a.Committed || a.CommitSeq > k {
 			continue
@@ -265,19 +280,24 @@ func c02Invariants(sc qScenario, pre *c02Pre, imageDir string, imageMeta map[str
 				}
 			}
 		}
-		// I4: a recipient whose latest delivery happened in attempt n must not be re-sent once attempt n+1 had begun.
-		// (With two crashes the recovery run may itself legitimately re-send it; that re-send is then the latest delivery.)
-		latest := map[string]int{}
+		// I4: once the queue has begun a later attempt that no longer includes a recipient delivered earlier
+		// (i.e. its meta-data recorded the delivery), that recipient must not be re-sent after a restart.
+		// An attempt that still offers the recipient (possible only after an earlier crash came before the
+		// meta-data update) does not count as "later attempt" for it; re-sending inside one run is C01's business
+		// and is flagged here as well.
 		for n, rs := range pre.deliveredUpTo[m.ID] {
 			for _, r := range rs {
-				if n > latest[r] {
-					latest[r] = n
+				for n2 := range pre.started[m.ID] {
+					if n2 <= n {
+						continue
+					}
+					if pre.offered[m.ID][n2][r] {
+						continue
+					}
+					if after[m.ID][r] {
+						vs = append(vs, ev.Vf("I4:resent-after-later-attempt", "%s: recipient %s of %s was delivered in attempt %d, attempt %d (which no longer included it) had begun before the stop, and recovery re-sent it", where, r, m.ID, n, n2))
+					}
 				}
-			}
-		}
-		for r, n := range latest {
-			if pre.startedMax[m.ID] > n && after[m.ID][r] {
-				vs = append(vs, ev.Vf("I4:resent-after-later-attempt", "%s: recipient %s of %s was delivered in attempt %d, attempt %d had begun before the stop, and recovery re-sent it", where, r, m.ID, n, pre.startedMax[m.ID]))
 			}
 		}
 	}
